@@ -7,7 +7,7 @@ From Coq Require Import ZifyBool ZifyNat.
 
 Section ScanP.
   Variable pg : Z -> res (list byte).
-  Variable U : Z.
+  Variable op : Z -> res page.   (* Database.openPage: the parsed page n *)
   Variable npages : nat.
 
   Definition tcollect (k : option nat) (rowid : Z) (r : record) (s : list (Z * record)) :=
@@ -19,16 +19,16 @@ Section ScanP.
 
   (* full scans: every row, once, in order *)
   Theorem table_scan_all root l :
-    table_rows pg U npages root = (l, None) ->
-    table_scan pg U npages _ root (tcollect None) [] = (Continue, rev l).
+    table_rows pg op npages root = (l, None) ->
+    table_scan pg op npages _ root (tcollect None) [] = (Continue, rev l).
   Proof.
     intros H. rewrite table_scan_rows, H, outcome_run_flat_none, run_cb_tcollect, stop_after_none.
     rewrite app_nil_r. reflexivity.
   Qed.
 
   Theorem index_scan_all root l :
-    index_rows pg U npages root = (l, None) ->
-    index_scan pg U npages _ root (stop_after None) [] = (Continue, rev l).
+    index_rows pg op npages root = (l, None) ->
+    index_scan pg op npages _ root (stop_after None) [] = (Continue, rev l).
   Proof.
     intros H. rewrite index_scan_rows, H, outcome_run_flat_none, stop_after_none.
     rewrite app_nil_r. reflexivity.
@@ -36,16 +36,16 @@ Section ScanP.
 
   (* a scan that meets an error has delivered the rows before it *)
   Theorem table_scan_err root l e :
-    table_rows pg U npages root = (l, Some e) ->
-    table_scan pg U npages _ root (tcollect None) [] = (Fail e, rev l).
+    table_rows pg op npages root = (l, Some e) ->
+    table_scan pg op npages _ root (tcollect None) [] = (Fail e, rev l).
   Proof.
     intros H. rewrite table_scan_rows, H. unfold run_flat. cbn [fst snd].
     rewrite run_cb_tcollect, stop_after_none. rewrite app_nil_r. reflexivity.
   Qed.
 
   Theorem index_scan_err root l e :
-    index_rows pg U npages root = (l, Some e) ->
-    index_scan pg U npages _ root (stop_after None) [] = (Fail e, rev l).
+    index_rows pg op npages root = (l, Some e) ->
+    index_scan pg op npages _ root (stop_after None) [] = (Fail e, rev l).
   Proof.
     intros H. rewrite index_scan_rows, H. unfold run_flat. cbn [fst snd].
     rewrite stop_after_none. rewrite app_nil_r. reflexivity.
@@ -53,25 +53,25 @@ Section ScanP.
 
   (* ---- early stop ---- *)
   Theorem table_scan_stop root l oe k : (1 <= k <= length l)%nat ->
-    table_rows pg U npages root = (l, oe) ->
-    table_scan pg U npages _ root (tcollect (Some k)) [] = (Stop, rev (firstn k l)).
+    table_rows pg op npages root = (l, oe) ->
+    table_scan pg op npages _ root (tcollect (Some k)) [] = (Stop, rev (firstn k l)).
   Proof.
     intros Hk H. rewrite table_scan_rows, H. unfold run_flat. cbn [fst snd].
     rewrite run_cb_tcollect, stop_after_firstn by exact Hk. reflexivity.
   Qed.
 
   Theorem index_scan_stop root l oe k : (1 <= k <= length l)%nat ->
-    index_rows pg U npages root = (l, oe) ->
-    index_scan pg U npages _ root (stop_after (Some k)) [] = (Stop, rev (firstn k l)).
+    index_rows pg op npages root = (l, oe) ->
+    index_scan pg op npages _ root (stop_after (Some k)) [] = (Stop, rev (firstn k l)).
   Proof.
     intros Hk H. rewrite index_scan_rows, H. unfold run_flat. cbn [fst snd].
     rewrite stop_after_firstn by exact Hk. reflexivity.
   Qed.
 
   Theorem index_scan_min_stop root from l k :
-    index_rows pg U npages root = (l, None) -> mono (search from) l ->
+    index_rows pg op npages root = (l, None) -> mono (search from) l ->
     (1 <= k <= length (drop_lt (search from) l))%nat ->
-    index_scan_min pg U npages _ root from (stop_after (Some k)) []
+    index_scan_min pg op npages _ root from (stop_after (Some k)) []
     = (Stop, rev (firstn k (drop_lt (search from) l))).
   Proof.
     intros H Hm Hk. rewrite (index_scan_min_rows _ _ _ _ _ _ _ l) by assumption.
@@ -79,10 +79,10 @@ Section ScanP.
   Qed.
 
   Theorem index_scan_range_stop root from to l k :
-    index_rows pg U npages root = (l, None) -> mono (search from) l ->
+    index_rows pg op npages root = (l, None) -> mono (search from) l ->
     let seg := take_while (fun r => negb (search to r)) (drop_lt (search from) l) in
     (1 <= k <= length seg)%nat ->
-    outcome (index_scan_range pg U npages _ root from to (stop_after (Some k)) [])
+    outcome (index_scan_range pg op npages _ root from to (stop_after (Some k)) [])
     = (None, rev (firstn k seg)).
   Proof.
     intros H Hm seg Hk. rewrite (index_scan_range_rows _ _ _ _ _ _ _ _ l) by assumption.
@@ -90,10 +90,10 @@ Section ScanP.
   Qed.
 
   Theorem index_scan_eq_stop root key l k :
-    index_rows pg U npages root = (l, None) -> mono (search key) l ->
+    index_rows pg op npages root = (l, None) -> mono (search key) l ->
     let seg := take_while (equals key) (drop_lt (search key) l) in
     (1 <= k <= length seg)%nat ->
-    outcome (index_scan_eq pg U npages _ root key (stop_after (Some k)) [])
+    outcome (index_scan_eq pg op npages _ root key (stop_after (Some k)) [])
     = (None, rev (firstn k seg)).
   Proof.
     intros H Hm seg Hk. rewrite (index_scan_eq_rows _ _ _ _ _ _ _ l) by assumption.
@@ -102,8 +102,8 @@ Section ScanP.
 
   (* the collecting forms of C13 *)
   Theorem index_scan_min_all root from l :
-    index_rows pg U npages root = (l, None) -> mono (search from) l ->
-    index_scan_min pg U npages _ root from (stop_after None) []
+    index_rows pg op npages root = (l, None) -> mono (search from) l ->
+    index_scan_min pg op npages _ root from (stop_after None) []
     = (Continue, rev (drop_lt (search from) l)).
   Proof.
     intros H Hm. rewrite (index_scan_min_rows _ _ _ _ _ _ _ l) by assumption.
@@ -111,8 +111,8 @@ Section ScanP.
   Qed.
 
   Theorem index_scan_range_all root from to l :
-    index_rows pg U npages root = (l, None) -> mono (search from) l ->
-    outcome (index_scan_range pg U npages _ root from to (stop_after None) [])
+    index_rows pg op npages root = (l, None) -> mono (search from) l ->
+    outcome (index_scan_range pg op npages _ root from to (stop_after None) [])
     = (None, rev (take_while (fun r => negb (search to r)) (drop_lt (search from) l))).
   Proof.
     intros H Hm. rewrite (index_scan_range_rows _ _ _ _ _ _ _ _ l) by assumption.
@@ -120,8 +120,8 @@ Section ScanP.
   Qed.
 
   Theorem index_scan_eq_all root key l :
-    index_rows pg U npages root = (l, None) -> mono (search key) l ->
-    outcome (index_scan_eq pg U npages _ root key (stop_after None) [])
+    index_rows pg op npages root = (l, None) -> mono (search key) l ->
+    outcome (index_scan_eq pg op npages _ root key (stop_after None) [])
     = (None, rev (take_while (equals key) (drop_lt (search key) l))).
   Proof.
     intros H Hm. rewrite (index_scan_eq_rows _ _ _ _ _ _ _ l) by assumption.
